@@ -14,7 +14,7 @@ import (
 func init() {
 	Register(&PropDef{
 		ID: "C11", QuickRuns: 1600, RaceRuns: 480, Level: "exploration", Race: true,
-		Rule: "one run = 2-8 associations on one datapath (BESS or UP4, drawn) working in rounds: in every round each association sends one valid request for one of its own sessions - establishment (UE address given or UP-allocated, F-TEID given or CHOOSE, 0-2 QERs, first PDR pair match-all or carrying one of three application filters shared by the whole run, downlink FAR towards one of three gNBs shared by the whole run), FAR update (new tunnel / buffer / drop; on UP4 only those that stay off the listed findings), other modifications inside the supported envelope (BESS), deletion - all at the same instant or with drawn pacing (0-200 us); the UE pool is large or so small (/28, /29) that a released address is handed out again at once (establishments whose acceptance then depends on the order within the round may be refused); in one round in three the only user of an application filter and gNB is deleted by its association while another association establishes the next user of the same filter and gNB; datapath RPC latency jitter 0-2 ms and occasional slow writes (1.5 / 5 ms) let the writes of two handlers overtake each other; the agent's one-goroutine-per-association handlers, the per-rule goroutines of the BESS plug-in and the heartbeat monitors are interleaved by the token scheduler at statement level (run-to-block / random / PCT, scheduling points before socket writes). One round in eight is sent one request at a time (serial control: a rejection there is a generator matter, counted, not a finding). Oracles: (a) every request is answered once, and - concurrent rounds - accepted, as in every one-at-a-time ordering of these order-independent requests; (b) at the quiescent point after each round the datapath (simulated BESS modules / P4Runtime switch) equals the reference image of the union of all live sessions (C03 / C04 oracle, incl. tunnel_peers / applications 'present iff used'), id bijections hold (C15 oracle); (c) after a final concurrent deletion of everything: tables empty, UE pool and TEID generator empty, UP4 id pools back to their start sizes and bookkeeping maps empty (white-box bridge), session store empty, gauge 0; (d) no agent task panics, the agent stays alive; (e) race build: the same scenarios run under the race detector; token hand-over between tasks happens inside runtime.RaceDisable sections and therefore creates no happens-before edge, so two agent goroutines touching a plain map / slice / field without a lock of their own are reported although only one of them runs at a time; reports whose both accesses are agent code (not harness probes) are violations, signature = the two accessing functions.",
+		Rule: "one run = 2-8 associations on one datapath (BESS or UP4, drawn) working in rounds: in every round each association sends one valid request for one of its own sessions - establishment (UE address given or UP-allocated, F-TEID given or CHOOSE, 0-2 QERs, first PDR pair match-all or carrying one of three application filters shared by the whole run, downlink FAR towards one of three gNBs shared by the whole run), FAR update (new tunnel / buffer / drop; on UP4 only those that stay off the listed findings), other modifications inside the supported envelope (BESS), deletion - all at the same instant or with drawn pacing (0-200 us); the UE pool is large or so small (/28, /29) that a released address is handed out again at once (establishments whose acceptance then depends on the order within the round may be refused); in one round in three the only user of an application filter and gNB is deleted by its association while another association establishes the next user of the same filter and gNB; datapath RPC latency jitter 0-2 ms and occasional slow writes (1.5 / 5 ms) let the writes of two handlers overtake each other; the agent's one-goroutine-per-association handlers, the per-rule goroutines of the BESS plug-in and the heartbeat monitors are interleaved by the token scheduler at statement level (run-to-block / random / PCT, scheduling points before socket writes). One run in eight is the directed "late completion" scenario: association A's establishment has one BESS call slower than the plug-in's 1 s wait, association B's establishment is aimed at the instant that wait ends (join timer, context deadline and B's datagram at one instant), RPC latencies differ by up to 2 ms, the daemon does not apply a call cancelled before it got to it; A's session is deleted and B's accepted session must be installed completely. One round in eight is sent one request at a time (serial control: a rejection there is a generator matter, counted, not a finding). Oracles: (a) every request is answered once, and - concurrent rounds - accepted, as in every one-at-a-time ordering of these order-independent requests; (b) at the quiescent point after each round the datapath (simulated BESS modules / P4Runtime switch) equals the reference image of the union of all live sessions (C03 / C04 oracle, incl. tunnel_peers / applications 'present iff used'), id bijections hold (C15 oracle); (c) after a final concurrent deletion of everything: tables empty, UE pool and TEID generator empty, UP4 id pools back to their start sizes and bookkeeping maps empty (white-box bridge), session store empty, gauge 0; (d) no agent task panics, the agent stays alive; (e) race build: the same scenarios run under the race detector; token hand-over between tasks happens inside runtime.RaceDisable sections and therefore creates no happens-before edge, so two agent goroutines touching a plain map / slice / field without a lock of their own are reported although only one of them runs at a time; reports whose both accesses are agent code (not harness probes) are violations, signature = the two accessing functions.",
 		Assume: []string{"requests of different associations are order-independent by construction (distinct UE addresses / TEIDs, pools larger than the load), so 'some one-at-a-time ordering' fixes each response's cause and the final image uniquely",
 			"race reports with a harness probe (bridge file, simulator goroutine) on either side are artefacts of reading white-box state at quiescence and are dropped (counted)"},
 		Real: CommonReal, Simulated: CommonSim,
@@ -44,7 +44,95 @@ func delAllocPlanned(pends []*c11Pend, usesPool func(*CPSession) bool) int {
 	return n
 }
 
+// scenarioC11Late: what one association's timed-out datapath request leaves
+// behind must not reach another association's request. A has one RPC of an
+// establishment slower than the plug-in waits (1 s); B's establishment is aimed
+// at the instant A's wait ends (join timer, context deadline and B's datagram
+// wake their goroutines against each other); RPC latencies differ, and the
+// daemon does not apply a call that was cancelled before it got to it. B's
+// accepted session must be installed completely.
+func scenarioC11Late(r *Run) {
+	r.FirstOnly = true
+	r.Conf = DefaultBESSConf()
+	r.Conf.EnableHBTimer = false
+	r.Conf.ReadTimeout = 3600
+	r.W.Bess.Faults.LatJit = []time.Duration{400 * time.Microsecond, 2 * time.Millisecond}[r.Ch.Choose(2, "rpcjit")]
+	r.W.Bess.DropCancelled = true
+	r.DrawStrategy()
+	r.Sim.StepCost = 0
+	a, b := r.AddPeer(), r.AddPeer()
+	r.Skel("late-completion")
+	r.StartAgent()
+	if !r.AgentAlive() || a.Associate() == nil || b.Associate() == nil {
+		r.CheckNoPanics("C11")
+		return
+	}
+	g := NewGen(r)
+	g.PlainQER = true
+	for att := 0; att < 4 && r.AgentAlive() && len(r.Violations) == 0; att++ {
+		sa := g.Session(a, SessShape{NQER: r.Ch.Choose(3, "nqer-a")})
+		sb := g.Session(b, SessShape{NQER: r.Ch.Choose(3, "nqer-b"), ExtraPDRs: r.Ch.Choose(2, "extra-b")})
+		sa.Peer, sb.Peer = a, b
+		r.W.Bess.Faults.SlowNth = r.W.Bess.Calls + 1 + r.Ch.Choose(4, "slow-which")
+		r.W.Bess.Faults.SlowBy = 1500 * time.Millisecond
+		ma, mb := a.EstablishMsg(sa), b.EstablishMsg(sb)
+		a.SendMsg(ma)
+		r.Sim.RunFor(300 * time.Millisecond)
+		r.W.Bess.Faults.SlowNth = 0
+		if !r.AimAtTimer(900 * time.Millisecond) {
+			r.Sim.RunFor(2 * time.Second)
+			continue
+		}
+		b.SendMsg(mb)
+		r.Sim.RunUntil(func() bool {
+			return a.FindResponse(message.MsgTypeSessionEstablishmentResponse, ma.Sequence()) != nil &&
+				b.FindResponse(message.MsgTypeSessionEstablishmentResponse, mb.Sequence()) != nil
+		}, r.Sim.NowNS()+int64(10*time.Second))
+		r.Sim.RunFor(2 * time.Second) // every call has come back or is gone
+		r.Fault("slow-rpc-beyond-join-timeout")
+		ra := a.FindResponse(message.MsgTypeSessionEstablishmentResponse, ma.Sequence())
+		rb := b.FindResponse(message.MsgTypeSessionEstablishmentResponse, mb.Sequence())
+		if ra == nil || rb == nil {
+			if r.AgentAlive() {
+				r.Violate("C11", "no-response:est:late:bess", "attempt %d: establishment of peer%d got no response (the other association's request had a datapath call slower than the join timeout)\n%s", att, map[bool]int{true: 0, false: 1}[ra == nil], strings.Join(r.Sim.BlockedTable(), "\n"))
+			}
+			break
+		}
+		ra.Used, rb.Used = true, true
+		// A's session is installed as far as its calls got (by design); it is ended
+		// before the image is judged
+		if c, _ := CauseOf(ra.Msg); c == ie.CauseRequestAccepted {
+			a.Establish2(sa, ra.Msg.(*message.SessionEstablishmentResponse))
+			if dr := a.Delete(sa); !dr.Accepted {
+				r.Inconclusive++
+				return
+			}
+			delete(a.Sessions, sa.CPSEID)
+		}
+		cb, _ := CauseOf(rb.Msg)
+		r.Op("attempt %d: A's establishment had a call slower than the join timeout; B's establishment, aimed at the end of A's wait -> cause %d", att, cb)
+		if cb != ie.CauseRequestAccepted {
+			r.Violate("C11", "request-rejected:est:late:bess", "attempt %d: establishment of peer1 rejected with cause %d while the other association's request was timing out at the datapath", att, cb)
+			break
+		}
+		r.Accepted++
+		b.Establish2(sb, rb.Msg.(*message.SessionEstablishmentResponse))
+		r.CheckBESSImage("C11", fmt.Sprintf("attempt %d: after B's establishment that arrived when A's wait for a slow datapath call ended (A's session deleted since)", att), "late-completion:bess")
+		if len(r.Violations) > 0 {
+			break
+		}
+		if dr := b.Delete(sb); dr.Accepted {
+			delete(b.Sessions, sb.CPSEID)
+		}
+	}
+	r.CheckNoPanics("C11")
+}
+
 func scenarioC11(r *Run) {
+	if r.Ch.Choose(8, "late-completion") == 1 {
+		scenarioC11Late(r)
+		return
+	}
 	r.FirstOnly = true
 	up4 := r.Ch.Choose(2, "datapath") == 1
 	var o UP4Opts
